@@ -91,7 +91,7 @@ PROPS = {
         "components": {"real": ["src/ebusd: mainloop.cpp bushandler.cpp network.cpp request.cpp scan.cpp main_args.cpp datahandler.cpp mqtthandler.cpp", "src/lib/ebus: all", "src/lib/utils: all"],
                        "stub": ["main() (assembly replicated in /verif/sim/h_l3.cpp)", "kernel, sockets, clock, scheduler: /verif/sim/simkernel.cpp", "bus, slaves, SYN generator: /verif/sim/simbus.cpp", "MQTT client library: /verif/sim/mqtt_stub.cpp", "KNX, SSL, update check: not built / disabled"]},
         "assumptions": ASSUME_COMMON + ["only the end-to-end path with time, retries and multi-step I/O is decided; the purely combinatorial part of the statement is not claimed"]},
-    "C12": {"families": ["c12", "c12o"], "claims": ["C09:telegram-not-identified"],   # a stored passive value that can no longer be read back is a history dependent result as well
+    "C12": {"families": ["c12"] * 5 + ["c12o"] * 4 + ["c12n"], "claims": ["C09:telegram-not-identified"],   # a stored passive value that can no longer be read back is a history dependent result as well
         "runs": {"quick": 20000, "thorough": 400000}, "level": "exploration", "timeout_ms": 30000,
         "rule": "one evaluation = one simulated run of the whole daemon: 1..3 client connections issue hostile encode/decode/read/write/find commands (overflowing, malformed, unknown types) interleaved with probe commands whose result a pristine instance gives (reference codec); the simulated kernel additionally leaves errno clobbered after successful calls. Non-trivial = at least one probe judged; distinct = distinct trace hashes among those.",
         "components": {"real": ["whole daemon except main()"], "stub": ["as C09"]},
@@ -105,7 +105,7 @@ PROPS = {
         "components": {"real": ["whole daemon except main()"], "stub": ["as C09"]},
         "assumptions": ASSUME_COMMON + ["pipelined TCP command lines are not generated (the client protocol is request/response)", "invalid percent escapes are not judged"]},
     # sanitizers and watchdogs watch every family
-    "C20": {"families": ["c20"] * 10 + ["c20s"] * 4 + ["c14e", "c14e", "c14e", "c14p", "c01a", "c01b", "c15", "c04", "c04s", "c04s", "c04s", "c04s", "c09", "c12", "c12o", "c16", "c16v", "c18t", "c18h", "c18m", "c13", "c17", "c17d", "c09w", "c09s", "c09f", "c02", "c03"], "runs": {"quick": 20000, "thorough": 300000}, "level": "exploration", "timeout_ms": 30000,
+    "C20": {"families": ["c20"] * 10 + ["c20s"] * 4 + ["c14e", "c14e", "c14e", "c14p", "c01a", "c01b", "c15", "c04", "c04s", "c04s", "c04s", "c04s", "c09", "c12", "c12o", "c12n", "c16", "c16v", "c18t", "c18h", "c18m", "c13", "c17", "c17d", "c09w", "c09s", "c09f", "c02", "c03"], "runs": {"quick": 20000, "thorough": 300000}, "level": "exploration", "timeout_ms": 30000,
         "claims": ["C20"],
         "rule": "one evaluation = one simulated run under ASan+UBSan: (c20) whole daemon with garbage command lines, HTTP requests, definition text through define/read -def/decode/encode, garbage symbols on the bus, then valid probes that must still be answered correctly; (c14e) arbitrary adapter frames; (c01a, c15) arbitrary bus traffic with and without registered answers. Any sanitizer report, abort, deadlock, step budget overrun or wrong probe result is a violation. Non-trivial as in the families; distinct = distinct trace hashes.",
         "components": {"real": ["whole daemon except main() (c20); protocol stack (c01a, c15); device layer (c14e)"], "stub": ["as C09"]},
